@@ -33,7 +33,7 @@ def _fault_kind(case):
     return case.get("_fault", "none")
 
 
-FAULT = C.Kind("op-under-fault", impl=H.run_case, model=H.model_line, judge=_judge,
+FAULT = C.Kind("op-under-fault", impl=H.run_case, model=H.model_line, judge=_judge, compare=H.same("class"),
                classify=lambda c, o: f"{c['req']['op']}:{_fault_kind(c).split('@')[0]}:{H.outcome_of(o).split()[0] if not H.outcome_of(o).startswith('raise') else H.outcome_of(o)}",
                nontrivial=lambda c, o: (c["req"]["op"], _fault_kind(c), H.outcome_of(o).split(" u:")[0][:40]),
                shrink=lambda c: [dict(c, replies=c["replies"][:-1])] if len(c["replies"]) > 1 else [])
@@ -53,7 +53,7 @@ def _judge_hist(hist, out):
     return lines
 
 
-HIST = C.Kind("fault-after-success", impl=HH.run_history, model=HH.model_lines, assemble=HH.assemble, judge=_judge_hist,
+HIST = C.Kind("fault-after-success", impl=HH.run_history, model=HH.model_lines, assemble=HH.assemble, judge=_judge_hist, compare=H.same("class"),
               classify=lambda h, o: "+".join(op["req"]["op"] + ":" + op.get("_fault", "none").split("@")[0] for op in h["instances"][0]["ops"])[:60],
               nontrivial=lambda h, o: tuple((op["req"]["op"], op.get("_fault", "none")) for op in h["instances"][0]["ops"]),
               shrink=lambda h: [dict(h, instances=[dict(h["instances"][0], ops=h["instances"][0]["ops"][:i] + h["instances"][0]["ops"][i + 1:])])
